@@ -42,8 +42,8 @@ def _mk_double_cls0():
             self.open = True
 
         def sendData(self, data):
-            self.calls.append(data)
-            return True
+            self.calls.append(data)                # the hub handed the message over (that is what the model counts) ...
+            return True if self.open else None     # ... and a closed transport reports it like the UDP bridge does: no success
 
         def getData(self):
             if not self.open or not self.inbox:
